@@ -1,10 +1,201 @@
-import SameVerif.Model.FramerRun
+import SameVerif.Lemmas.FrameSpecFacts
 /-
-  C07 — Bursts are byte-aligned to the transmission start and end where data ends.
-  (first instalment; the refinement theorem against Spec/Frame.lean follows)
+  C07 — Framing of one start: after a (re)start the framer searches at most
+  `PREFIX_SEARCH_LEN + 1` bytes for a `ZCZC`/`NNNN` window within the prefix error budget, then
+  reads data bytes verbatim until the invalid-byte budget is exceeded or the burst holds
+  `MAX_BURST_LENGTH` bytes, reports the burst exactly once, and drops the carrier.
+
+  The model (`Model/Framer.lean`, run by `Model/FramerRun.lean`) is shown equal, byte for byte and
+  for every stream, to the index-based specification `Spec/Frame.lean`; the remaining theorems
+  are readable consequences.  "Not a `.read` state" is written out as
+  `s0 = .idle ∨ ∃ w n, s0 = .search w n`.
 -/
 namespace SameVerif.C07
-open SameVerif
+open SameVerif SameVerif.Spec
+
+/-- **Refinement.**  A framer restarted (from any state that is not `.read`) at the first byte of
+    `bs` and then fed the rest reports exactly the specified link state for every byte. -/
+theorem framer_refines_spec (c : FCfg) (s0 : FState) (bs : List Byte)
+    (h0 : s0 = .idle ∨ ∃ w n, s0 = .search w n) :
+    feedStart c s0 bs = Spec.specStates c.maxPrefixErr c.maxInvalid bs := by
+  apply List.ext_getElem
+  · rw [feedStart_length, specStates_length]
+  · intro i h1 h2
+    have hi : i < bs.length := by rw [feedStart_length] at h1; exact h1
+    rw [specStates_getElem _ _ _ _ hi]
+    cases i with
+    | zero => rw [feedStart_getElem_zero c s0 bs h0 hi, linkAt_one]
+    | succ i => exact feedStart_getElem_pos c s0 bs (i + 1) hi (by omega)
+
+/-- **A restart forgets.**  Whatever state the framer was in (including `.read`), everything it
+    reports after the restart byte itself is the same. -/
+theorem restart_forgets (c : FCfg) (s0 s0' : FState) (bs : List Byte) :
+    (feedStart c s0 bs).tail = (feedStart c s0' bs).tail := by
+  cases bs with
+  | nil => rfl
+  | cons b bs => simp only [feedStart, List.tail_cons, finput_restart_state]
+
+/-- **Bytes in order.**  A reported burst is the matched 4-byte window exactly as received,
+    followed by the `j` bytes that followed it in the stream (all of them present), in order:
+    nothing dropped, inserted or rewritten.  `k0` is the spec's start index. -/
+theorem bytes_in_order (c : FCfg) (s0 : FState) (bs : List Byte)
+    (h0 : s0 = .idle ∨ ∃ w n, s0 = .search w n) (b : List Byte)
+    (hb : .burst b ∈ feedStart c s0 bs) :
+    ∃ k0 j, Spec.startIndex c.maxPrefixErr bs = some k0 ∧ k0 + j < bs.length
+      ∧ b = Spec.windowAt bs k0 ++ (bs.drop k0).take j := by
+  obtain ⟨i, hi, hl⟩ := burst_mem c s0 bs h0 b hb
+  obtain ⟨k0, je, hs, he, hije, rfl⟩ := linkAt_burst hl
+  have e1 := (endIndex_some he).1
+  exact ⟨k0, je - 1, hs, by omega, rfl⟩
+
+/-- **One burst per start.**  At most one burst is reported, and every byte after the one that
+    reported it reports `noCarrier`. -/
+theorem one_burst_per_start (c : FCfg) (s0 : FState) (bs : List Byte)
+    (h0 : s0 = .idle ∨ ∃ w n, s0 = .search w n) :
+    ((feedStart c s0 bs).filter LinkSt.isBurst).length ≤ 1
+      ∧ ∀ i j b, (feedStart c s0 bs)[i]? = some (.burst b) → i < j → j < bs.length →
+          (feedStart c s0 bs)[j]? = some .noCarrier := by
+  constructor
+  · apply filter_length_le_one
+    intro i j hi hj hij hp
+    cases hb : (feedStart c s0 bs)[i] with
+    | burst b => rw [after_burst c s0 bs h0 i j b hi hj hij hb]; rfl
+    | noCarrier => rw [hb] at hp; cases hp
+    | searching => rw [hb] at hp; cases hp
+    | reading => rw [hb] at hp; cases hp
+  · intro i j b hb hij hj
+    obtain ⟨hi, hb⟩ := List.getElem?_eq_some_iff.mp hb
+    have hj' : j < (feedStart c s0 bs).length := by rw [feedStart_length]; exact hj
+    rw [List.getElem?_eq_getElem hj', after_burst c s0 bs h0 i j b hi hj' hij hb]
+
+/-- **Give up.**  If no window within the prefix budget occurs in the first
+    `PREFIX_SEARCH_LEN + 1` bytes, no burst is ever reported and the carrier is dropped from
+    byte number `PREFIX_SEARCH_LEN + 1` (0-based index `PREFIX_SEARCH_LEN`) on. -/
+theorem give_up (c : FCfg) (s0 : FState) (bs : List Byte)
+    (h0 : s0 = .idle ∨ ∃ w n, s0 = .search w n)
+    (hnone : Spec.startIndex c.maxPrefixErr bs = none) :
+    (∀ b, .burst b ∉ feedStart c s0 bs)
+      ∧ ∀ i, Gen.PREFIX_SEARCH_LEN ≤ i → i < bs.length →
+          (feedStart c s0 bs)[i]? = some .noCarrier := by
+  constructor
+  · intro b hb
+    obtain ⟨i, hi, hl⟩ := burst_mem c s0 bs h0 b hb
+    obtain ⟨k0, je, hs, _⟩ := linkAt_burst hl
+    rw [hnone] at hs; cases hs
+  · intro i h1 h2
+    have hp := prefix_search_pos
+    have h2' : i < (feedStart c s0 bs).length := by rw [feedStart_length]; exact h2
+    rw [List.getElem?_eq_getElem h2', feedStart_getElem_pos c s0 bs i h2 (by omega),
+      linkAt_none hnone, if_neg (by omega)]
+
+/-- **Burst length.**  Every burst reported by a start holds at most `MAX_BURST_LENGTH` bytes —
+    for every previous state `s0`, provided a burst already open in `s0` respects the bound
+    (which `read_length_invariant` below shows every reachable state does). -/
+theorem burst_length_bounded (c : FCfg) (s0 : FState) (bs : List Byte)
+    (h0 : ∀ msg inv, s0 = .read msg inv → msg.length ≤ Gen.MAX_BURST_LENGTH) (b : List Byte)
+    (hb : .burst b ∈ feedStart c s0 bs) : b.length ≤ Gen.MAX_BURST_LENGTH := by
+  obtain ⟨i, hi, hib⟩ := List.getElem_of_mem hb
+  have hi' : i < bs.length := by rw [feedStart_length] at hi; exact hi
+  cases i with
+  | zero =>
+    cases bs with
+    | nil => simp at hi'
+    | cons x xs =>
+      cases s0 with
+      | idle => simp [feedStart, finput, fend] at hib
+      | search w n => simp [feedStart, finput, fend] at hib
+      | read msg inv =>
+        simp [feedStart, finput, fend] at hib
+        subst hib
+        exact h0 _ _ rfl
+  | succ i =>
+    rw [feedStart_getElem_pos c s0 bs (i + 1) hi' (by omega)] at hib
+    obtain ⟨k0, je, hs, he, hije, rfl⟩ := linkAt_burst hib
+    have := endIndex_bound he
+    rw [List.length_append, windowAt_length, List.length_take]
+    omega
+
+/-- the length bound on an open burst is an invariant of every framer step -/
+theorem read_length_invariant (c : FCfg) (s : FState) (data : Byte) (restart : Bool)
+    (hs : ∀ msg inv, s = .read msg inv → msg.length ≤ Gen.MAX_BURST_LENGTH) :
+    (∀ msg inv, (finput c s data restart).1 = .read msg inv → msg.length ≤ Gen.MAX_BURST_LENGTH)
+      ∧ ∀ b, (finput c s data restart).2 = .burst b → b.length ≤ Gen.MAX_BURST_LENGTH := by
+  have h4 := max_burst_ge_four
+  have hsearch : ∀ w n msg inv, (finputNR c (.search w n) data).1 = .read msg inv →
+      msg.length ≤ Gen.MAX_BURST_LENGTH := by
+    intro w n msg inv h
+    simp only [finputNR] at h
+    split at h
+    · injection h with h _; subst h; simpa [beBytes] using h4
+    · split at h <;> cases h
+  cases restart with
+  | true =>
+    constructor
+    · intro msg inv h
+      rw [finput_restart_state] at h
+      exact hsearch _ _ _ _ h
+    · intro b h
+      cases s with
+      | idle => simp [finput, fend] at h
+      | search w n => simp [finput, fend] at h
+      | read msg inv =>
+        simp [finput, fend] at h
+        subst h
+        exact hs _ _ rfl
+  | false =>
+    cases s with
+    | idle => constructor <;> intro _ <;> simp [finput, finputNR]
+    | search w n =>
+      constructor
+      · intro msg inv h
+        exact hsearch w n msg inv (by simpa [finput] using h)
+      · intro b h
+        simp only [finput, finputNR] at h
+        by_cases hp : prefixErrors (w <<< 8 ||| data.toUInt32) ≤ c.maxPrefixErr
+        · simp [hp] at h
+        · by_cases hq : n + 1 > Gen.PREFIX_SEARCH_LEN <;> simp [hp, hq] at h
+    | read m iv =>
+      have hm := hs m iv rfl
+      have hstep : finput c (.read m iv) data false
+          = if (decide (iv + (if isAllowed data then 0 else 1) > c.maxInvalid)
+                || decide (m.length ≥ Gen.MAX_BURST_LENGTH)) = true then (.idle, .burst m)
+            else (.read (m ++ [data]) (iv + (if isAllowed data then 0 else 1)), .reading) := by
+        simp [finput, finputNR]
+      rw [hstep]
+      generalize iv + (if isAllowed data then 0 else 1) = iv'
+      by_cases hc : (decide (iv' > c.maxInvalid) || decide (m.length ≥ Gen.MAX_BURST_LENGTH)) = true
+      · rw [if_pos hc]
+        constructor
+        · intro msg inv h; cases h
+        · intro b h; injection h with h; subst h; exact hm
+      · rw [if_neg hc]
+        constructor
+        · intro msg inv h
+          injection h with h _; subst h
+          simp only [Bool.or_eq_true, decide_eq_true_eq, not_or] at hc
+          rw [List.length_append, List.length_singleton]; omega
+        · intro b h; cases h
+
+/-- **Busy time.**  Whatever the stream, `PREFIX_SEARCH_LEN + 1` search bytes,
+    `MAX_BURST_LENGTH - 4` data bytes and the byte that reports the burst are the longest a
+    single start can keep the link away from `noCarrier` (any previous state `s0`). -/
+theorem busy_bounded (c : FCfg) (s0 : FState) (bs : List Byte) (i : Nat)
+    (hi : Gen.PREFIX_SEARCH_LEN + 1 + (Gen.MAX_BURST_LENGTH - 4) + 1 ≤ i) (hlen : i < bs.length) :
+    (feedStart c s0 bs)[i]? = some .noCarrier := by
+  have h' : i < (feedStart c s0 bs).length := by rw [feedStart_length]; exact hlen
+  rw [List.getElem?_eq_getElem h', feedStart_getElem_pos c s0 bs i hlen (by omega),
+    linkAt_busy_bounded _ _ bs (i + 1) (by omega) (by omega)]
+
+/-- **Restart while reading.**  The interrupted burst is reported, not lost, and the framer
+    continues exactly as if it had been restarted from idle. -/
+theorem restart_from_read (c : FCfg) (msg : List Byte) (inv : Nat) (b : Byte) :
+    (finput c (.read msg inv) b true).2 = .burst msg
+      ∧ (finput c (.read msg inv) b true).1 = (finput c .idle b true).1 := by
+  constructor
+  · simp [finput, fend]
+  · rw [finput_restart_state, finput_restart_state]
+
+/-! ### single-step facts (first instalment, kept) -/
 
 /-- an idle framer ignores everything until the next start: no burst without a start -/
 theorem idle_absorbs (c : FCfg) (bs : List Byte) : ∀ ls ∈ feed c .idle bs, ls = .noCarrier := by
@@ -17,12 +208,6 @@ theorem idle_absorbs (c : FCfg) (bs : List Byte) : ∀ ls ∈ feed c .idle bs, l
     · exact h
     · exact ih ls h
 
-/-- a burst interrupted by a re-synchronisation is emitted, not lost, and the framer restarts cleanly -/
-theorem restart_from_read (c : FCfg) (msg : List Byte) (inv : Nat) (b : Byte) :
-    (finput c (.read msg inv) b true).2 = .burst msg
-      ∧ (finput c (.read msg inv) b true).1 = (finput c .idle b true).1 := by
-  simp [finput, fend]
-
 /-- while reading, received bytes are appended unchanged and in order -/
 theorem read_appends (c : FCfg) (msg : List Byte) (inv : Nat) (b : Byte) (msg' : List Byte) (inv' : Nat)
     (h : (finputNR c (.read msg inv) b).1 = .read msg' inv') : msg' = msg ++ [b] := by
@@ -34,5 +219,36 @@ theorem burst_is_accumulated (c : FCfg) (msg : List Byte) (inv : Nat) (b : Byte)
     (h : (finputNR c (.read msg inv) b).2 = .burst out) : out = msg := by
   simp only [finputNR] at h
   split at h <;> split at h <;> simp_all
+
+/-! ### non-vacuity -/
+
+/-- non-vacuity: preamble byte, `ZCZC`, `-`, then two invalid bytes with an invalid budget of 1 -/
+example :
+    feedStart ⟨0, 1⟩ .idle [0xAB, 0x5A, 0x43, 0x5A, 0x43, 0x2D, 0x00, 0x00, 0x41]
+      = [.searching, .searching, .searching, .searching, .reading, .reading, .reading,
+         .burst [0x5A, 0x43, 0x5A, 0x43, 0x2D, 0x00], .noCarrier] := by
+  decide +kernel
+
+/-- non-vacuity: 18 preamble bytes, so that `ZCZC` completes exactly at byte 22, the last chance -/
+example :
+    feedStart ⟨0, 0⟩ .idle (List.replicate 18 0xAB ++ [0x5A, 0x43, 0x5A, 0x43, 0x2D, 0x00, 0x41])
+      = List.replicate 21 .searching
+          ++ [.reading, .reading, .burst [0x5A, 0x43, 0x5A, 0x43, 0x2D], .noCarrier] := by
+  decide +kernel
+
+/-- non-vacuity: one byte later is too late — the framer has given up at byte 22 -/
+example :
+    feedStart ⟨0, 0⟩ .idle (List.replicate 19 0xAB ++ [0x5A, 0x43, 0x5A, 0x43, 0x2D, 0x00, 0x41])
+      = List.replicate 21 .searching ++ List.replicate 5 .noCarrier := by
+  decide +kernel
+
+/-- non-vacuity: the length cap — 300 valid data bytes after `ZCZC` give one burst of exactly
+    `MAX_BURST_LENGTH` bytes, reported on data byte 249 -/
+example :
+    feedStart ⟨0, 0⟩ .idle ([0x5A, 0x43, 0x5A, 0x43] ++ List.replicate 300 0x41)
+      = List.replicate 3 .searching ++ List.replicate 249 .reading
+          ++ [.burst ([0x5A, 0x43, 0x5A, 0x43] ++ List.replicate 248 0x41)]
+          ++ List.replicate 51 .noCarrier := by
+  decide +kernel
 
 end SameVerif.C07
